@@ -98,6 +98,41 @@ def gen_uamiv(rng, maxdim=4, maxsteps=3):
                 with_etflag=rng.random() < 0.5, tstep=tstep, data=data)
 
 
+def in_read_domain(c):
+    """files on which the legacy record reader (uamiv.Read) is meaningful: see DESIGN (C13)"""
+    nt = len(c['tflag'])
+    return (c['name'] in ('AVERAGE', 'INSTANT') and c['tstep'] % 2 == 1 and min(c['nx'], c['ny'], c['nz'], nt) >= 2
+            and c['tflag'][0][0] == c['etflag'][-1][0])
+
+
+def gen_uamiv_read_domain(rng):
+    while True:
+        c = gen_uamiv(rng)
+        c['name'] = rng.choice(['AVERAGE', 'INSTANT'])
+        if in_read_domain(c):
+            return c
+
+
+def view_of_record_reader(f):
+    names = list(f.variables.keys())
+    nt = len(f.dimensions['TSTEP'])
+    nz, ny, nx = len(f.dimensions['LAY']), len(f.dimensions['ROW']), len(f.dimensions['COL'])
+    sp = ';'.join(lib.show_list(codes(s, 10)) for s in names) or '-'
+    for s in names:
+        shp = tuple(np.shape(f.variables[s]))
+        if shp != (nt, nz, ny, nx):
+            return dict(inconsistent='variable %s has shape %s but the dimensions say %s' % (s, shp, (nt, nz, ny, nx)),
+                        nspec=len(names), nx=nx, ny=ny, nz=nz, nt=nt)
+    dat = []
+    for t in range(nt):
+        ws = []
+        for s in names:
+            arr = np.ascontiguousarray(np.asarray(f.variables[s][t], dtype='>f4'))
+            ws += arr.view('>u4').ravel().tolist()
+        dat.append(hexwords(ws))
+    return dict(nspec=len(names), nx=nx, ny=ny, nz=nz, nt=nt, species=sp, data='|'.join(dat), partial=True)
+
+
 def grid_words(c):
     g = c['grid']
     i32 = lambda v: v & 0xffffffff
@@ -132,9 +167,9 @@ def build_uamiv_file(c):
         ef = f.createVariable('ETFLAG', 'i', ('TSTEP', 'VAR', 'DATE-TIME'))
         ef[:] = np.array(c['etflag'], dtype='i')[:, None, :].repeat(nspec, 1)
     for si, s in enumerate(c['species']):
-        v = f.createVariable(s, 'f', ('TSTEP', 'LAY', 'ROW', 'COL'))
+        v = f.createVariable(s, c.get('vdtype', 'f'), ('TSTEP', 'LAY', 'ROW', 'COL'))
         bits = np.array([[c['data'][t][si][z] for z in range(c['nz'])] for t in range(nt)], dtype='>u4')
-        v[:] = bits.view('>f4').reshape(nt, c['nz'], c['ny'], c['nx'])
+        v[:] = bits.view('>f4').reshape(nt, c['nz'], c['ny'], c['nx'])      # float32 -> float64 is exact
         v.units = 'ppm'
     return f
 
@@ -188,9 +223,11 @@ def diff_view(model_out, view):
     for k in ('nspec', 'nx', 'ny', 'nz', 'nt'):
         if int(kv[k]) != view[k]:
             return '%s model=%s impl=%s' % (k, kv[k], view[k])
-    for k in ('species', 'tflag', 'data'):
+    for k in (('species', 'data') if view.get('partial') else ('species', 'tflag', 'data')):
         if kv[k] != view[k]:
             return '%s model=%s impl=%s' % (k, kv[k][:120], view[k][:120])
+    if view.get('partial'):
+        return None         # record reader: dimensions, species and data only
     if view['etflag'] is not None and kv['etflag'] != view['etflag']:
         return 'etflag model=%s impl=%s' % (kv['etflag'], view['etflag'])
     mh = kv['hdr']
@@ -276,6 +313,7 @@ def read_with_library(b, reader='memmap'):
             else:
                 from PseudoNetCDF.camxfiles.uamiv.Read import uamiv
                 f = uamiv(path)
+                return view_of_record_reader(f)
             return view_of_reader(f)
     finally:
         try:
